@@ -33,7 +33,19 @@ func settingsFieldName(v ssa.Value) string {
 	if !ok {
 		return ""
 	}
-	return st.Field(fa.Field).Name()
+	f := st.Field(fa.Field)
+	if !f.Exported() {
+		// the context's private copy of the builtin library is known by its role, not its name: the unexported
+		// map from expanded names to functions (the exported one, FunctionLibrary, is the user's)
+		if mt, ok := f.Type().Underlying().(*types.Map); ok {
+			if _, isSig := mt.Elem().Underlying().(*types.Signature); isSig {
+				if kn, ok := types.Unalias(mt.Key()).(*types.Named); ok && kn.Obj().Name() == "XmlName" {
+					return "builtinFunctions"
+				}
+			}
+		}
+	}
+	return f.Name()
 }
 
 // textOrigin describes where a string used in a name comparison comes from.
